@@ -306,6 +306,14 @@ int main(int argc, char **argv)
         px->scripted_forces.push_back(std::make_pair(pct_decode(w[i]), strtod(w[i + 1].c_str(), 0)));
       continue;
     }
+    if (cmd == "force_script") {
+      // 'force_script' alone clears the list; with arguments it appends one script command
+      if (w.size() == 1) { px->force_scripts.clear(); continue; }
+      std::vector<std::string> a;
+      for (size_t i = 1; i < w.size(); i++) a.push_back(pct_decode(w[i]));
+      px->force_scripts.push_back(a);
+      continue;
+    }
     if (cmd == "scripted_force_error") { px->scripted_force_error = atoi(w[1].c_str()); continue; }
     if (cmd == "die_at") { px->io_die_at = atol(w[1].c_str()); continue; }
     if (cmd == "die_after") { px->io_die_after = atol(w[1].c_str()); continue; }
